@@ -96,6 +96,8 @@ struct Cx<'tcx> {
     tcx: TyCtxt<'tcx>,
     types: Vec<J>,
     ty_ix: HashMap<Ty<'tcx>, usize>,
+    // promoted constants of the body being exported that are a fieldless variant of an ADT: index -> (adt, variant, index)
+    prom_variants: HashMap<usize, (String, String, usize)>,
 }
 
 fn def_id_str(tcx: TyCtxt<'_>, did: DefId) -> String {
@@ -293,6 +295,15 @@ impl<'tcx> Cx<'tcx> {
                             bits as i128
                         };
                         f.push(("int", J::I(v)));
+                    }
+                }
+                if let mir::Const::Unevaluated(uv, _) = c.const_ {
+                    if let Some(p) = uv.promoted {
+                        if let Some((adt, vn, vi)) = self.prom_variants.get(&p.as_usize()) {
+                            f.push(("padt", s(adt.clone())));
+                            f.push(("pvname", s(vn.clone())));
+                            f.push(("pvariant", J::I(*vi as i128)));
+                        }
                     }
                 }
                 if let ty::FnDef(did, _) = cty.kind() {
@@ -599,7 +610,7 @@ impl rustc_driver::Callbacks for Cb {
         if !want.split(',').any(|c| c == krate) {
             return Compilation::Continue;
         }
-        let mut cx = Cx { tcx, types: Vec::new(), ty_ix: HashMap::new() };
+        let mut cx = Cx { tcx, types: Vec::new(), ty_ix: HashMap::new(), prom_variants: HashMap::new() };
         let mut owners: Vec<_> = tcx.hir_body_owners().collect();
         // nested bodies (closures, coroutines) first: their MIR must be read before the
         // parent's queries steal it.
@@ -611,10 +622,37 @@ impl rustc_driver::Callbacks for Cb {
             if !matches!(kind, DefKind::Fn | DefKind::AssocFn | DefKind::Closure) {
                 continue;
             }
-            let (steal, _prom) = tcx.mir_promoted(def);
+            let (steal, prom) = tcx.mir_promoted(def);
             if steal.is_stolen() {
                 stolen += 1;
                 continue;
+            }
+            cx.prom_variants.clear();
+            if !prom.is_stolen() {
+                for (pi, pb) in prom.borrow().iter_enumerated() {
+                    let mut found: Vec<(String, String, usize)> = Vec::new();
+                    let mut other = 0;
+                    for blk in pb.basic_blocks.iter() {
+                        for st in &blk.statements {
+                            if let StatementKind::Assign(bx) = &st.kind {
+                                match &bx.1 {
+                                    Rvalue::Aggregate(kind, ops) => match &**kind {
+                                        AggregateKind::Adt(did, vidx, _, _, _) if ops.is_empty() => {
+                                            let adt = tcx.adt_def(*did);
+                                            found.push((def_id_str(tcx, *did), adt.variant(*vidx).name.to_string(), vidx.as_usize()));
+                                        }
+                                        _ => other += 1,
+                                    },
+                                    Rvalue::Ref(..) => {}
+                                    _ => other += 1,
+                                }
+                            }
+                        }
+                    }
+                    if found.len() == 1 && other == 0 {
+                        cx.prom_variants.insert(pi.as_usize(), found.pop().unwrap());
+                    }
+                }
             }
             let body = steal.borrow();
             bodies.push(cx.body(def.to_def_id(), &body));
